@@ -49,6 +49,10 @@ func short(b []byte) string {
 
 type msg struct{ a, p []byte }
 
+// feedReference makes the receiver of session() open what the REFERENCE implementation sealed (a conformant
+// peer's messages) instead of the real sender's output; on conformant code the two are the same bytes.
+var feedReference bool
+
 // forceTagSecondHalf makes the receiver-side tamper of session() hit tag bytes 16..31.
 var forceTagSecondHalf bool
 
@@ -136,6 +140,9 @@ func session(class string, key []byte, msgs []msg, tamper int, r *hv.Rand, allFl
 
 		// the receiver's view
 		seen, seenA := ct, m.a
+		if feedReference {
+			seen = append(append([]byte{}, wc...), wt...)
+		}
 		tampered := false
 		if i == tamper {
 			tampered = true
@@ -471,6 +478,32 @@ func main() {
 		key := r.Bytes(hv.Pick(r, []int{16, 16, 32, 32, 1, 5, 17, 64, 199}))
 		session("multi-message-session", key, ms, tamper, r, r.Chance(hv.Scale(40, 100)))
 	}
+	// --- long sessions on one instance: 5..14 messages of mixed lengths incl. empty ones.  The session bit e
+	// alternates for the whole session, so anything that only shows after several messages (a counter instead
+	// of a bit, state that drifts) shows here; half of them make the receiver open what a conformant peer
+	// (the reference) sealed, a third see one flipped bit somewhere (the rest of the session is then compared
+	// out of step: in this code a rejected message still advances the session, as the model has it).
+	for i := 0; i < hv.Scale(36, 600); i++ {
+		nm := 5 + r.Intn(10)
+		var ms []msg
+		for j := 0; j < nm; j++ {
+			p := hv.Pick(r, []int{0, 0, 1, 2, 16, 31, 32, 33, r.Intn(64), r.Intn(64), hv.Pick(r, []int{199, 200, 201, 400})})
+			a := hv.Pick(r, []int{0, 0, 1, 4, 12, r.Intn(32), hv.Pick(r, []int{199, 200, 201})})
+			ms = append(ms, msg{r.Bytes(a), r.Bytes(p)})
+		}
+		tamper := -1
+		if r.Chance(33) {
+			tamper = r.Intn(nm)
+		}
+		feedReference = i%2 == 1
+		class := "long-session"
+		if feedReference {
+			class = "long-session-reference-sealed"
+		}
+		session(class, r.Bytes(hv.Pick(r, []int{16, 16, 32, 7, 33})), ms, tamper, r, false)
+	}
+	feedReference = false
+
 	// A flipped tag bit also changes the decryption stream (T keys it), so with a non-empty ciphertext the
 	// recomputed tag differs everywhere; only on EMPTY plaintexts is the tag compared against a value that
 	// does not depend on it.  These sessions put the receiver-side flip into tag bytes 16..31 of such a
